@@ -314,6 +314,13 @@ class Phase(Angle):
             phase2_value = 0.0
         else:
             phase2_value = phase2.to_value(cls._unit)
+        # The exact two-double arithmetic must be done in double precision.
+        phase1_value = np.asarray(phase1_value, dtype=np.float64)
+        phase2_value = np.asarray(phase2_value, dtype=np.float64)
+        if factor is not None:
+            factor = np.asarray(factor, dtype=np.float64)
+        if divisor is not None:
+            divisor = np.asarray(divisor, dtype=np.float64)
         count, fraction = day_frac(
             phase1_value, phase2_value, factor=factor, divisor=divisor
         )
